@@ -38,7 +38,7 @@ func (s *LSPServer) DidClose(ctx context.Context, params *protocol.DidCloseTextD
 func (p *LSPServer) DidChange(ctx context.Context, params *protocol.DidChangeTextDocumentParams) error {
 	p.logger.Println("DidChange:", jsonMarshal(params))
 
-	if !strings.HasSuffix(string(params.TextDocument.URI), ".wa") {
+	if uri := string(params.TextDocument.URI); !strings.HasSuffix(uri, ".wa") && !strings.HasSuffix(uri, ".wz") {
 		return nil
 	}
 
